@@ -183,6 +183,19 @@ def _install(model, subscribe, published):
             "w": SimWeightedTally("wt", "weighted", sim),
             "p": SimPersistent("per", "persistent", sim),
         }
+        # a second statistic of each kind with the SAME descriptive name under another key (e.g. "waiting time" of
+        # two servers), fed the same observations: it reports what the first one reports
+        m.twins = {
+            "c": SimCounter("cnt-b", "counter", sim),
+            "t": SimTally("tal-b", "tally", sim),
+            "w": SimWeightedTally("wt-b", "weighted", sim),
+            "p": SimPersistent("per-b", "persistent", sim),
+        }
+        m.twins["c"].listen_to(m.prod["c"])
+        m.twins["c"].listen_to(m.prod["c"], _custom_type())
+        m.twins["t"].listen_to(m.prod["t"], _custom_type())
+        m.twins["w"].listen_to(m.prod["w"])
+        m.twins["p"].listen_to(m.prod["p"])
         m.stats["c"].listen_to(m.prod["c"])
         m.stats["c"].listen_to(m.prod["c"], _custom_type())       # the counter listens to TWO event types
         m.obs_c_n = 0
@@ -372,6 +385,11 @@ def run_case(case):
                              {"diff": diff, "kept": len(kept), "all": len(obs), "warmups": epoch})
             if h.model.stats["p"].isactive():
                 out.fail("persistent-not-closed-at-end", None)
+            for k_ in "ctwp":
+                d1, d2 = stoch.stat_digest(h.model.stats[k_]), stoch.stat_digest(h.model.twins[k_])
+                if d1 != d2:
+                    out.fail("equally-named-statistic-differs:" + k_,
+                             {"diff": {g: [d1[g], d2.get(g)] for g in d1 if d1[g] != d2.get(g)}})
             # independent exact time integral for the persistent
             pk = [(t, float.fromhex(a[1])) for a, t in kept if a[0] == "obs_p"]
             if pk:
